@@ -47,6 +47,9 @@ func init() {
 	add("C08", "C08.alloc (no make() in the code that handles gossip-port input is sized by an integer a peer supplied — a message field or an element of a Known map — without a two-sided bound: such an allocation panics or exhausts memory on one crafted message).", as1(allocRule, "C08.alloc"))
 	add("C13", "C13.holdback (a joiner records no event before the round at which its validator-set takes effect: addSelfEvent's gate Store.LastRound() >= acceptedRound cannot be bypassed, acceptedRound comes from the join response, and the join promise is answered with the round passed to SetPeerSet; shared with C10.holdback).", as1(holdbackRule, "C13.holdback"))
 	add("C10", "C10.holdback (see C13.holdback).", as1(holdbackRule, "C10.holdback"))
+	add("C15", "C15.lazy (the lazy getters of the memoised digests — PeerSet.Hash/Hex, Block.Hash/Hex, Event.Hash/Hex/Creator — fill the memo exactly on the edge on which it was found empty, with a computed value; shared with C12.lazy / C10.lazy).", as1(lazyGetterRule, "C15.lazy"))
+	add("C12", "C12.lazy (see C15.lazy: with an inverted test every peer-set hashes to the empty string and CheckBlock's peer-set comparison accepts any set).", as1(lazyGetterRule, "C12.lazy"))
+	add("C10", "C10.lazy (see C15.lazy).", as1(lazyGetterRule, "C10.lazy"))
 	add("C01", "C01.mapcut (see C03.mapcut).", as(mapCutRule, "C01.mapcut", consensusFuncs))
 	add("C13", "C13.mapcut (see C03.mapcut, for the functions that build a frame).", as(mapCutRule, "C13.mapcut", frameFuncs))
 }
@@ -987,5 +990,80 @@ func holdbackRule(p *Prog, r *Report, rule string) {
 	}
 	if nr == 0 {
 		r.Fail(rule, "processAcceptedInternalTransactions:respond", p.pos(pait.Pos()), fnName(pait), "no accepting respond() call found")
+	}
+}
+
+/* ---------- lazy getters: the memo is filled exactly when it is empty (mutation scan) ---------- */
+
+// lazyGetterRule: for the memoised digests (PeerSet.Hash / Hex, Block.Hash / Hex, Event.Hash / Hex / Creator, Peer.ID),
+// every store to the memo field inside its getter is reached only on the edge on which the field was tested EMPTY
+// (len == 0, == "", == nil, == 0), and the stored value is data-dependent on the object's content (not a constant).
+// With the test inverted the getter returns the empty memo for ever: every peer-set then "hashes" to the empty string,
+// and the peer-set hash comparison of CheckBlock (C12), the frame/block identity (C15) and the validator-set hash in
+// blocks (C10) compare equal for any two sets.
+func lazyGetterRule(p *Prog, r *Report, rule string) {
+	r.Rule(rule, 6, "a lazy getter fills its memo field exactly on the edge on which the field was found empty, with a value computed from the content")
+	specs := []struct{ pkg, typ, field, getter string }{
+		{PEER, "PeerSet", "hash", "Hash"}, {PEER, "PeerSet", "hex", "Hex"},
+		{HG, "Block", "hash", "Hash"}, {HG, "Block", "hex", "Hex"},
+		{HG, "Event", "hash", "Hash"}, {HG, "Event", "hex", "Hex"}, {HG, "Event", "creator", "Creator"},
+	}
+	for _, s := range specs {
+		fv := p.Field(s.pkg, s.typ, s.field)
+		fn := p.Func(s.pkg, s.typ, s.getter)
+		if fv == nil || fn == nil {
+			r.Anchor(rule, s.typ+"."+s.getter+" / "+s.field)
+			continue
+		}
+		emptyLit := func(l Lit) bool {
+			// len(f) == 0, f == "", f == nil — with the polarity that makes the field empty
+			if a, b, strict, okc := cmpLit(l); okc { // a > b or a >= b: 0 >= len(f), 1 > len(f)
+				if lv, isLen := isLenOf(unwrap(b)); isLen {
+					if f, _ := fieldOf(lv); f == fv {
+						if k, isC := intConst(a); isC && ((k == 0 && !strict) || (k == 1 && strict)) {
+							return true
+						}
+					}
+				}
+			}
+			x, y, ok := eqLit(l)
+			if !ok {
+				return false
+			}
+			for _, pr := range [][2]ssa.Value{{x, y}, {y, x}} {
+				a, b := pr[0], pr[1]
+				if lv, isLen := isLenOf(unwrap(a)); isLen {
+					if k, isC := intConst(b); isC && k == 0 {
+						if f, _ := fieldOf(lv); f == fv {
+							return true
+						}
+					}
+				}
+				if f, _ := fieldOf(a); f == fv {
+					if sc, isS := strConst(b); isS && sc == "" {
+						return true
+					}
+					if isNilConst(b) {
+						return true
+					}
+				}
+			}
+			return false
+		}
+		sts := storesIntoField(fn, fv)
+		ok, why := len(sts) > 0, ""
+		if len(sts) == 0 {
+			why = "the getter never stores into the memo field"
+		}
+		for _, st := range sts {
+			if _, isC := st.Val.(*ssa.Const); isC {
+				ok, why = false, "the memo is filled with a constant at "+p.ipos(st)
+				continue
+			}
+			if g, _ := p.allPaths(st, []Pred{emptyLit}, all(1)); !g {
+				ok, why = false, "the store at "+p.ipos(st)+" is not confined to the edge on which "+s.field+" was found empty (inverted or missing test): the getter can return an empty memo for ever, or overwrite a filled one"
+			}
+		}
+		r.Check(ok, rule, s.typ+"."+s.getter+":fills-"+s.field+"-when-empty", p.pos(fn.Pos()), fnName(fn), "memo filled exactly when empty", why)
 	}
 }
